@@ -70,7 +70,9 @@ impl vstd::std_specs::convert::FromSpecImpl<walkdir::Error> for AnyError {
 
 /// cp's mapping rule, first half: where the tree rooted at `source` goes
 pub open spec fn target_base_of(ps: Map<PathKey, Node>, source: PathKey, dest: PathKey, no_target_directory: bool) -> PathKey {
-    if is_dir_m(ps, dest) && !no_target_directory { pjoin(dest, plast(source)->Some_0) } else { dest }
+    // dest/basename when the source's last component names an entry; a source that ends in `.`, `..` or is the root has no
+    // basename: like cp, its *contents* go into the destination (joining `..` would create entries outside the destination)
+    if is_dir_m(ps, dest) && !no_target_directory && pnormal(plast(source)->Some_0) { pjoin(dest, plast(source)->Some_0) } else { dest }
 }
 /// second half: where the walked entry `e` of the tree rooted at `source` goes
 pub open spec fn map_target(tb: PathKey, source: PathKey, e: PathKey) -> PathKey {
